@@ -550,6 +550,32 @@ static size_t get_value_size(carquet_physical_type_t type, int32_t type_length) 
  * ============================================================================
  */
 
+/* Page offsets and sizes come from the file. They are checked against the
+ * file size before being used for pointer arithmetic, allocation or I/O. */
+static carquet_status_t page_window(const carquet_reader_t* file_reader,
+                                    int64_t offset, size_t* avail,
+                                    carquet_error_t* error) {
+    if (offset < 0 || (uint64_t)offset >= (uint64_t)file_reader->file_size) {
+        CARQUET_SET_ERROR(error, CARQUET_ERROR_INVALID_PAGE, "Page offset outside file");
+        return CARQUET_ERROR_INVALID_PAGE;
+    }
+    *avail = file_reader->file_size - (size_t)offset;
+    return CARQUET_OK;
+}
+
+static carquet_status_t page_sizes_ok(const parquet_page_header_t* page_header,
+                                      size_t header_size, size_t avail,
+                                      carquet_error_t* error) {
+    if (page_header->compressed_page_size < 0 ||
+        page_header->uncompressed_page_size < 0 ||
+        header_size > avail ||
+        (size_t)page_header->compressed_page_size > avail - header_size) {
+        CARQUET_SET_ERROR(error, CARQUET_ERROR_INVALID_PAGE, "Page size outside file");
+        return CARQUET_ERROR_INVALID_PAGE;
+    }
+    return CARQUET_OK;
+}
+
 static carquet_status_t load_dictionary_page_mmap(
     carquet_column_reader_t* reader,
     carquet_error_t* error) {
@@ -560,12 +586,17 @@ static carquet_status_t load_dictionary_page_mmap(
 
     /* Parse page header directly from mmap */
     int64_t dict_offset = col_meta->dictionary_page_offset;
+    size_t avail;
+    carquet_status_t status = page_window(file_reader, dict_offset, &avail, error);
+    if (status != CARQUET_OK) {
+        return status;
+    }
     const uint8_t* header_ptr = mmap_data + dict_offset;
 
     parquet_page_header_t page_header;
     size_t header_size;
-    carquet_status_t status = parquet_parse_page_header(
-        header_ptr, 256, &page_header, &header_size, error);
+    status = parquet_parse_page_header(
+        header_ptr, avail < 256 ? avail : 256, &page_header, &header_size, error);
     if (status != CARQUET_OK) {
         return status;
     }
@@ -573,6 +604,11 @@ static carquet_status_t load_dictionary_page_mmap(
     if (page_header.type != CARQUET_PAGE_DICTIONARY) {
         CARQUET_SET_ERROR(error, CARQUET_ERROR_INVALID_PAGE, "Expected dictionary page");
         return CARQUET_ERROR_INVALID_PAGE;
+    }
+
+    status = page_sizes_ok(&page_header, header_size, avail, error);
+    if (status != CARQUET_OK) {
+        return status;
     }
 
     /* Get pointer to compressed data */
@@ -650,6 +686,13 @@ static carquet_status_t load_dictionary_page_fread(
     FILE* file = file_reader->file;
     const parquet_column_metadata_t* col_meta = reader->col_meta;
 
+    size_t avail;
+    carquet_status_t status = page_window(file_reader, col_meta->dictionary_page_offset,
+                                          &avail, error);
+    if (status != CARQUET_OK) {
+        return status;
+    }
+
     /* Seek to dictionary page */
     if (fseek(file, col_meta->dictionary_page_offset, SEEK_SET) != 0) {
         CARQUET_SET_ERROR(error, CARQUET_ERROR_FILE_SEEK, "Failed to seek to dictionary");
@@ -666,7 +709,7 @@ static carquet_status_t load_dictionary_page_fread(
 
     parquet_page_header_t page_header;
     size_t header_size;
-    carquet_status_t status = parquet_parse_page_header(
+    status = parquet_parse_page_header(
         header_buf, header_read, &page_header, &header_size, error);
     if (status != CARQUET_OK) {
         return status;
@@ -675,6 +718,11 @@ static carquet_status_t load_dictionary_page_fread(
     if (page_header.type != CARQUET_PAGE_DICTIONARY) {
         CARQUET_SET_ERROR(error, CARQUET_ERROR_INVALID_PAGE, "Expected dictionary page");
         return CARQUET_ERROR_INVALID_PAGE;
+    }
+
+    status = page_sizes_ok(&page_header, header_size, avail, error);
+    if (status != CARQUET_OK) {
+        return status;
     }
 
     /* Seek past header and read page data */
@@ -783,19 +831,38 @@ static carquet_status_t load_next_page_mmap(
     }
 
     /* Parse page header directly from mmap */
-    int64_t page_offset = reader->data_start_offset + reader->current_page;
+    if (reader->data_start_offset < 0) {
+        CARQUET_SET_ERROR(error, CARQUET_ERROR_INVALID_PAGE, "Page offset outside file");
+        return CARQUET_ERROR_INVALID_PAGE;
+    }
+    int64_t page_offset = (int64_t)((uint64_t)reader->data_start_offset +
+                                    (uint64_t)reader->current_page);
+    size_t avail;
+    carquet_status_t status = page_window(file_reader, page_offset, &avail, error);
+    if (status != CARQUET_OK) {
+        return status;
+    }
     const uint8_t* header_ptr = mmap_data + page_offset;
 
     parquet_page_header_t page_header;
     size_t header_size;
-    carquet_status_t status = parquet_parse_page_header(
-        header_ptr, 256, &page_header, &header_size, error);
+    status = parquet_parse_page_header(
+        header_ptr, avail < 256 ? avail : 256, &page_header, &header_size, error);
     if (status != CARQUET_OK) {
         return status;
     }
 
     if (page_header.type != CARQUET_PAGE_DATA && page_header.type != CARQUET_PAGE_DATA_V2) {
         CARQUET_SET_ERROR(error, CARQUET_ERROR_INVALID_PAGE, "Expected data page");
+        return CARQUET_ERROR_INVALID_PAGE;
+    }
+
+    status = page_sizes_ok(&page_header, header_size, avail, error);
+    if (status != CARQUET_OK) {
+        return status;
+    }
+    if (page_header.data_page_header.num_values < 0) {
+        CARQUET_SET_ERROR(error, CARQUET_ERROR_INVALID_PAGE, "Negative value count");
         return CARQUET_ERROR_INVALID_PAGE;
     }
 
@@ -830,6 +897,14 @@ static carquet_status_t load_next_page_mmap(
     if (zero_copy_eligible && !has_levels) {
         /* ====== ZERO-COPY PATH ====== */
 
+        /* The view handed out covers num_values values: they must all be
+         * stored in this page */
+        if (value_size == 0 ||
+            (size_t)num_values > (size_t)page_header.compressed_page_size / value_size) {
+            CARQUET_SET_ERROR(error, CARQUET_ERROR_INVALID_PAGE, "Page shorter than its value count");
+            return CARQUET_ERROR_INVALID_PAGE;
+        }
+
         /* Free previous owned buffer if any */
         if (reader->decoded_ownership == CARQUET_DATA_OWNED) {
             free(reader->decoded_values);
@@ -846,6 +921,16 @@ static carquet_status_t load_next_page_mmap(
             reader->decoded_def_levels = malloc(sizeof(int16_t) * num_values);
             reader->decoded_rep_levels = malloc(sizeof(int16_t) * num_values);
             reader->decoded_capacity = num_values;
+            if (!reader->decoded_def_levels || !reader->decoded_rep_levels) {
+                free(reader->decoded_def_levels);
+                free(reader->decoded_rep_levels);
+                reader->decoded_def_levels = NULL;
+                reader->decoded_rep_levels = NULL;
+                reader->decoded_capacity = 0;
+                reader->decoded_values = NULL;
+                CARQUET_SET_ERROR(error, CARQUET_ERROR_OUT_OF_MEMORY, "Failed to allocate level buffers");
+                return CARQUET_ERROR_OUT_OF_MEMORY;
+            }
         }
 
         /* Zero-copy only happens when max_def_level == 0, so all levels are 0.
@@ -981,6 +1066,16 @@ static carquet_status_t load_next_page_fread(
 
     /* Seek to data page */
     int64_t data_offset = reader->data_start_offset;
+    size_t avail;
+    if (data_offset < 0) {
+        CARQUET_SET_ERROR(error, CARQUET_ERROR_INVALID_PAGE, "Page offset outside file");
+        return CARQUET_ERROR_INVALID_PAGE;
+    }
+    carquet_status_t status = page_window(file_reader,
+        (int64_t)((uint64_t)data_offset + (uint64_t)reader->current_page), &avail, error);
+    if (status != CARQUET_OK) {
+        return status;
+    }
     if (fseek(file, data_offset + reader->current_page, SEEK_SET) != 0) {
         CARQUET_SET_ERROR(error, CARQUET_ERROR_FILE_SEEK, "Failed to seek to data page");
         return CARQUET_ERROR_FILE_SEEK;
@@ -996,7 +1091,7 @@ static carquet_status_t load_next_page_fread(
 
     parquet_page_header_t page_header;
     size_t header_size;
-    carquet_status_t status = parquet_parse_page_header(
+    status = parquet_parse_page_header(
         header_buf, header_read, &page_header, &header_size, error);
     if (status != CARQUET_OK) {
         return status;
@@ -1004,6 +1099,15 @@ static carquet_status_t load_next_page_fread(
 
     if (page_header.type != CARQUET_PAGE_DATA && page_header.type != CARQUET_PAGE_DATA_V2) {
         CARQUET_SET_ERROR(error, CARQUET_ERROR_INVALID_PAGE, "Expected data page");
+        return CARQUET_ERROR_INVALID_PAGE;
+    }
+
+    status = page_sizes_ok(&page_header, header_size, avail, error);
+    if (status != CARQUET_OK) {
+        return status;
+    }
+    if (page_header.data_page_header.num_values < 0) {
+        CARQUET_SET_ERROR(error, CARQUET_ERROR_INVALID_PAGE, "Negative value count");
         return CARQUET_ERROR_INVALID_PAGE;
     }
 
